@@ -133,15 +133,15 @@ def check(case, r, tier):
             idx = first + list(rest)
             body = "\n".join(BODY[i] for i in idx)
             thorough = tier == "thorough"
-            ns = (NS + [40]) if d == 1 else (NS if thorough else [0, 1, 2, 3])
+            ns = (NS + [40]) if d == 1 else ((NS if thorough else [0, 1, 2, 3]) if d == 2 else [2, 3])
             for n in ns:
                 unrolled = "\n".join([body] * n)
                 for reg in REG:
                     if reg != "first" and lazy_weight(idx) * n > 10:
                         r.extra["lazy_regime_cases_skipped_resource_guard"] += 1
                         continue
-                    for odd in ((False, True) if (d == 1 or thorough) else ((n + len(idx) + idx[-1]) % 2 == 1,)):
-                        for sym in ((False, True) if (d == 1 or thorough) else ((n + idx[0]) % 2 == 1,)):
+                    for odd in ((False, True) if (d == 1 or (thorough and d == 2)) else ((n + len(idx) + idx[-1]) % 2 == 1,)):
+                        for sym in ((False, True) if (d == 1 or (thorough and d == 2)) else ((n + idx[0]) % 2 == 1,)):
                             for defs_first in ((False, True) if (d == 1 and not sym) else (False,)):
                                 cnt = "cnt" if sym else "%o" % n
                                 a = wrap(".repeat %s {\n%s\n}" % (cnt, body), reg, odd, defs_first, "cnt = %o\n" % n if sym else "")
